@@ -18,6 +18,7 @@ EXPLANATION = (
     "(extend_from_slice); the unguarded setters (set_len, set_init, buffer_init) are unsafe fns; (R3) remove validates "
     "before mutating: both panic tests dominate the first store and the copy; (R4) capacity() is the pool's buffer "
     "size. Equivalence with Vec<u8> over all edit sequences is not decided."
+    ' Also decided: (R6) each edit stores the length its contract names (truncate: len; clear: 0; set_len: new_len; extend_from_slice: len + other.len(); remove: len - (end - start)) on every path on which it applies, and remove turns range bounds into [start, end) with +1 exactly for an excluded start / included end.'
 )
 NOT_DECIDED = "observational equivalence with Vec<u8> over all edit sequences"
 ASSUMPTIONS = ["the kernel-initialised length stored at buffer_init is <= capacity (C08.R4 / kernel contract)"]
